@@ -410,7 +410,32 @@ def run(ck, ctx):
         for fi, site, loc, ret, pc in log_of("CphotAng.valid_arrays")[:1]:
             names = ["zs", "delgram", "ZonZ", "ThetPrpA", "AirN", "s", "RN", "e2hill"]
             outs = {nm: I.elem(ret, k) for k, nm in enumerate(names)}
-            gramsum, gramz, Eshow = (I.res(loc[k], K.st) for k in ("gramsum", "gramz", "Eshow"))
+            # the inputs of the profile: by the name the code gives them today, else by position (the traversed and the
+            # remaining grammage are the 3rd and 4th argument), the shower energy by its value (100 PeV units x 1e8)
+            params_ = [a_.arg for a_ in fi.node.args.args if a_.arg != "self"]
+
+            def arg_of(name, position):
+                if name in loc:
+                    return I.res(loc[name], K.st)
+                if position is not None and position < len(params_) and params_[position] in loc:
+                    return I.res(loc[params_[position]], K.st)
+                return None
+            gramsum, gramz, Eshow = arg_of("gramsum", 2), arg_of("gramz", 3), arg_of("Eshow", None)
+            if Eshow is None:
+                Pq = PolyFacet(I, opaque_ids={K.ins["Eshow100PeV"].id})
+                want_e = Pq.ref("e*100000000", {"e": Pq.of(K.ins["Eshow100PeV"])})
+                for cand in walk([I.res(outs["RN"], K.st)]):
+                    if cand.op in ("Call", "BinOp"):
+                        try:
+                            if Pq.equal(Pq.of(cand), want_e):
+                                Eshow = cand
+                                break
+                        except Exception:       # noqa: BLE001
+                            continue
+            if gramsum is None or gramz is None or Eshow is None:
+                ck.note("CphotAng.valid_arrays: the grammage / shower-energy inputs were not identified - the Greisen "
+                        "profile formulas are not decided")
+                continue
             ecrit = I.res(I.load_attr(K.obj, "ecrit", K.st, None, None), K.st)
             # one gather mask for all eight arrays
             masks = {g.vn(o.args[1]) for o in outs.values() if o.op == "Subscript"}
@@ -834,12 +859,14 @@ def run(ck, ctx):
                 return arms(v.args[1], depth + 1) + arms(v.args[2], depth + 1)
             return [v]
 
-        def main_arm(v, what):
+        def main_arms(v, what):
             a = [x for x in arms(v) if any(y.op == "Input" for y in walk([x]))]
-            if len(a) != 1:
-                raise AnalysisError(f"{what}: {len(a)} non-constant return value(s), expected one")
-            return a[0]
-        d_main, a_main = main_arm(den, "photon density"), main_arm(ang, "Cherenkov angle")
+            if not a:
+                raise AnalysisError(f"{what}: no non-constant return value")
+            return a
+        d_arms, a_arms = main_arms(den, "photon density"), main_arms(ang, "Cherenkov angle")
+        # (a second formula for some events has to be the model's as well: every alternative is compared)
+        d_main, a_main = d_arms[0], a_arms[0]
         va = one("CphotAng.valid_arrays")
         N = I.res(I.elem(va[3], 6), K.st)                       # particle number per step
         D = I.res(one("CphotAng.d_to_det")[3], K.st)           # distance of each step to the detector
@@ -871,7 +898,8 @@ def run(ck, ctx):
                 if g.vn(x) not in sv:
                     todo.extend(x.args)
             return out
-        subs = [x for x in above(d_main, [S]) if x.op == "Subscript" and g.vn(x.args[0]) == g.vn(D)]
+        subs = list({x.id: x for dm in d_arms for x in above(dm, [S])
+                     if x.op == "Subscript" and g.vn(x.args[0]) == g.vn(D)}.values())
         ck.floor("R06.11", len(subs), 1, "reads of the step-to-detector distance in the photon density")
 
         def is_argmax_of_N(ix):
@@ -903,17 +931,22 @@ def run(ck, ctx):
         env = {r_: P.of(n) for r_, n in atoms.items()}
         env["pi"] = P.of(I.res(I.load_attr(K.obj, "pi", K.st, None, None), K.st))
         MEAN = "sum(sum(Y) * T * c) / sum(sum(Y) * T)"
-        try:
-            env["a"] = _ref_with_pi(P, MEAN, env)
-            want = _ref_with_pi(P, "0.5 * S / (pi * (tan(a) * 1000 * Dm)**2) * (do / dd)**2", env)
-            ok = P.equal(_bare(P.of(d_main)), want)
-            detail = P.show(P.of(d_main))[:240]
-        except Exception as ex:           # noqa: BLE001
-            ok, detail = None, f"{type(ex).__name__}: {ex}"
-        ck.ob("R06.11", "photon density == 0.5 x (photons of the angular integration) / (pi (tan<theta_c> x 1000 x D_max)^2) "
-              "x (distance from the reference orbit / distance from the detector)^2, with <theta_c> the mean Cherenkov "
-              "angle weighted by the photons of each step (sum over wavelengths of the yield x track-length fraction)",
-              ok, d_main, fn, detail, construct="CphotAng.run: photon density")
+        for d_main in d_arms:
+            try:
+                env["a"] = _ref_with_pi(P, MEAN, env)
+                want = _ref_with_pi(P, "0.5 * S / (pi * (tan(a) * 1000 * Dm)**2) * (do / dd)**2", env)
+                ok = P.equal(_bare(P.of(d_main)), want)
+                detail = P.show(P.of(d_main))[:240]
+            except Exception as ex:           # noqa: BLE001
+                ok, detail = None, f"{type(ex).__name__}: {ex}"
+            ck.ob("R06.11", "photon density == 0.5 x (photons of the angular integration) / (pi (tan<theta_c> x 1000 x "
+                  "D_max)^2) x (distance from the reference orbit / distance from the detector)^2, with <theta_c> the "
+                  "mean Cherenkov angle weighted by the photons of each step (sum over wavelengths of the yield x "
+                  "track-length fraction)" + (f" [{len(d_arms)} alternative results: each]" if len(d_arms) > 1 else ""),
+                  ok, d_main, fn, detail, construct="CphotAng.run: photon density")
+        if len(a_arms) > 1:
+            ck.ob("R06.11", "the Cherenkov angle is one formula for every event that reaches the end of the kernel", False,
+                  ang, fn, f"{len(a_arms)} alternative results")
         # -- the angle: mean + spread, in degrees
         phis = [x for x in walk([a_main]) if x.op == "Phi" and cnt and any(y is cnt[0] for y in walk([x.args[0]]))]
         try:
